@@ -109,6 +109,8 @@ struct RunResult {
     /// index of the act during which the crash happened (None: while opening the store)
     crash_act: Option<usize>,
     mismatch: Option<String>,
+    /// the scripts ("Lock:<hex>" / "Type:<hex>") whose answers hold the stale entries of a mismatch (phantom cells, entries not on the chain)
+    mismatch_scripts: Vec<String>,
     /// at the point of non-convergence the persisted or in-memory matched blocks hold a hash that is not on the network's
     /// current chain (a record of the abandoned branch that survived: the mechanism of KF28 / KF37)
     stale_matched: bool,
@@ -260,7 +262,7 @@ fn run_history_x(h: &History, params: &super::super::chain::ChainParams, ccfg: &
             std::panic::panic_any(CrashHere(k, site));
         }
     }));
-    let mut res = RunResult { writes: 0, crashed: None, crash_op: String::new(), restart_panic: None, converged: false, rebased_start: false, banned: None, crash_act: None, mismatch: None, stale_matched: false, panic: None, sites: vec![], trace: vec![], abort_store_equal: None };
+    let mut res = RunResult { writes: 0, crashed: None, crash_op: String::new(), restart_panic: None, converged: false, rebased_start: false, banned: None, crash_act: None, mismatch: None, mismatch_scripts: vec![], stale_matched: false, panic: None, sites: vec![], trace: vec![], abort_store_equal: None };
     let main = Chain::generate(params.clone(), h.len);
     let mut w = World::new(main, ccfg.clone(), h.seed, now);
     let mut net = HonestNet::new(0);
@@ -456,6 +458,12 @@ fn run_history_x(h: &History, params: &super::super::chain::ChainParams, ccfg: &
                 if std::env::var("VERIF_DEBUG").is_ok() {
                     res.trace = w.trace_vec();
                 }
+                if cmp.missing_cells.is_empty() && cmp.missing_history.is_empty() && cmp.capacity_mismatch.is_empty() {
+                    // only stale data (nothing missing): remember whose
+                    res.mismatch_scripts = cmp.phantom_cells.iter().map(|(n, _)| n.clone()).chain(cmp.bogus_history.iter().map(|(n, _)| n.clone())).collect();
+                    res.mismatch_scripts.sort();
+                    res.mismatch_scripts.dedup();
+                }
                 res.mismatch = Some(format!(
                     "phantom {} missing_cells {} bogus_history {} missing_history {} capacity {}: first {:?} {:?} {:?}",
                     cmp.phantom_cells.len(), cmp.missing_cells.len(), cmp.bogus_history.len(), cmp.missing_history.len(), cmp.capacity_mismatch.len(),
@@ -641,6 +649,53 @@ pub fn run(cfg: &RunCfg, out: &Out) {
                 // a script that was dropped by set_scripts before a fork and registered again after it: the data it left behind
                 // is neither purged nor rolled back (KF42)
                 let mut reregistered = false;
+                // KF42 under shifted timing: a crash that interrupts the fork handling before its rollback is committed leaves the client
+                // in the pre-fork state; the rollback then runs later than in the crash-free run - after a set_scripts that has dropped
+                // a script - and the script's stale entries come back when a later set_scripts registers it again. Evidence required:
+                // the mismatch consists of stale data only, and every script that shows it was dropped by an act after the fork act
+                // and registered again by a later one.
+                let mut stale_of_scripts_dropped_after_fork = false;
+                if !r.mismatch_scripts.is_empty() {
+                    let name = |s: &ckb_types::packed::Script, st: &ST| format!("{:?}:{}", st, super::super::out::hex(s.as_slice()));
+                    let mut seen_fork = false;
+                    let mut current: Vec<String> = vec![];
+                    let mut dropped_after_fork: Vec<String> = vec![];
+                    let mut back_again: Vec<String> = vec![];
+                    for a in h.acts.iter() {
+                        match a {
+                            Act::SetAll(regs) => {
+                                let new: Vec<String> = regs.iter().map(|(s, st, _)| name(s, st)).collect();
+                                for x in new.iter() {
+                                    if dropped_after_fork.contains(x) {
+                                        back_again.push(x.clone());
+                                    }
+                                }
+                                if seen_fork {
+                                    for x in current.iter() {
+                                        if !new.contains(x) {
+                                            dropped_after_fork.push(x.clone());
+                                        }
+                                    }
+                                }
+                                current = new;
+                            }
+                            Act::Delete(regs) => {
+                                for (s, st, _) in regs.iter() {
+                                    let n = name(s, st);
+                                    if let Some(p) = current.iter().position(|x| *x == n) {
+                                        current.remove(p);
+                                        if seen_fork {
+                                            dropped_after_fork.push(n);
+                                        }
+                                    }
+                                }
+                            }
+                            Act::Fork { .. } => seen_fork = true,
+                            _ => {}
+                        }
+                    }
+                    stale_of_scripts_dropped_after_fork = r.mismatch_scripts.iter().all(|n| back_again.contains(n));
+                }
                 {
                     let mut current: Vec<(ckb_types::packed::Script, ST)> = vec![];
                     let mut dropped_before_fork: Vec<(ckb_types::packed::Script, ST)> = vec![];
@@ -675,6 +730,8 @@ pub fn run(cfg: &RunCfg, out: &Out) {
                     "fork-in-history+rebased-start".to_string()
                 } else if reregistered {
                     "fork-in-history+script-reregistered-across-fork".to_string()
+                } else if stale_of_scripts_dropped_after_fork && site == "batch_commit" && r.crash_op == "rollback_to_block" {
+                    "fork-in-history+rollback-interrupted+script-dropped-and-reregistered-before-the-repeated-rollback".to_string()
                 } else if let Some(code) = &r.banned {
                     format!("fork-in-history+honest-peer-banned:{}", code)
                 } else if r.stale_matched {
